@@ -415,3 +415,9 @@ func Only(k string) bool {
 	o := os.Getenv("VERIF_ONLY")
 	return o == "" || o == k
 }
+
+// OnlyGroup is Only for a scenario that emits several records keyed k+"/"+label.
+func OnlyGroup(k string) bool {
+	o := os.Getenv("VERIF_ONLY")
+	return o == "" || o == k || strings.HasPrefix(o, k+"/")
+}
